@@ -48,7 +48,7 @@ def generate(rng, i, tier):
         picks = [rng.randrange(len(HEADER_POOL)) if rng.random() < 0.6 else 0 for _ in range(ncol - 1)]
         hdr = ["id"] + [HEADER_POOL[p].format(c + 1) for c, p in enumerate(picks)]
         # (cells that make date parsing emit Python warnings: whether those are errors is process-global state)
-        rows = gen.gen_rows(rng, hdr=hdr, nasty=rng.random() < 0.3, extra_cells=["2024-03-05 10:30 PST", "2024-01-01", "12/31/2024 7pm EST", "1 Jan 2024 09:00 XYZ"])
+        rows = gen.gen_rows(rng, hdr=hdr, min_rec=0 if rng.random() < 0.15 else 1, trailing_blank_p=0.1, nasty=rng.random() < 0.3, extra_cells=["2024-03-05 10:30 PST", "2024-01-01", "12/31/2024 7pm EST", "1 Jan 2024 09:00 XYZ"])
         if rng.random() < 0.03 and len(rows) > 2:
             # one data cell larger than the csv module's default field size limit (128 KiB)
             big = [r for r in rows[1:] if r]
@@ -303,6 +303,33 @@ def execute(sc):
                         f"{text!r} ({job['entry']}), both in pristine processes: {d2[0]} with {job['kind']} creation = {json.dumps(d2[1], default=str)[:300]}, with {other['kind']} creation = {json.dumps(d2[2], default=str)[:300]}",
                         field=d2[0],
                     )
+            if n == 0 and sc["seed"] % 6 == 0 and not d:
+                # the same job once more, in a REAL fresh interpreter under another hash seed
+                import subprocess
+                import sys as _sys
+
+                tw3 = W.World(csvpath_policy=sc["policy"]).create()
+                twins.append(tw3)
+                _populate(tw3, sc)
+                spec = os.path.join(tw3.root, "spec.json")
+                with open(spec, "w", encoding="utf-8") as f:
+                    json.dump({"root": tw3.root, "seed": sc["seed"], "job": job, "dialects": dialects}, f)
+                env = dict(os.environ)
+                env["PYTHONHASHSEED"] = str(1 + sc["seed"] % 4000)
+                r = subprocess.run([_sys.executable, "-m", "verifsim.fresh_job", spec], cwd=os.path.dirname(os.path.dirname(os.path.dirname(os.path.abspath(__file__)))), env=env, capture_output=True, text=True, timeout=120)
+                tw3.destroy()
+                out.runs += 1
+                out.fault("fresh_interpreter_twin")
+                if r.returncode != 0 or not r.stdout.strip():
+                    raise RuntimeError(f"fresh_job failed: {r.stdout[-300:]} {r.stderr[-1500:]}")
+                fresh = json.loads(r.stdout.strip().splitlines()[-1])
+                d3 = _diff(json.loads(json.dumps(twin, default=str)), fresh)
+                if d3:
+                    out.v(
+                        "process_dependent",
+                        f"{where}: {d3[0]} in a forked pristine process = {json.dumps(d3[1], default=str)[:300]} but in a fresh interpreter with PYTHONHASHSEED={env['PYTHONHASHSEED']} = {json.dumps(d3[2], default=str)[:300]}",
+                        field=d3[0],
+                    )
             seen_files.add(job["file"])
             if out.violations:
                 break
@@ -323,6 +350,7 @@ def execute(sc):
         out.probe("two chain jobs (source-mode preceding) over different files in one process", len({j["file"] for j in jobs if j["kind"] == "chain"}) > 1)
         out.probe("file with a cell above the csv field size limit", any(len(c) > 131072 for f in sc["files"] for r in f["rows"] for c in r))
         out.probe("job that edits headers or the line in place", any(c.startswith(("append(", "replace(")) for j in jobs for c in j["member"]["comps"]))
+        out.probe("file with a single record (the header)", any(len([r for r in f["rows"] if r]) == 1 and len(f["rows"]) == 1 for f in sc["files"]))
         out.probe("exact repeat of a job", any(jobs[a] == jobs[b] for a in range(len(jobs)) for b in range(a + 1, len(jobs))))
         out.extra["header_classes"] = classes
         out.log(hist, len(out.violations))
